@@ -1260,6 +1260,8 @@ func (f *FuncVC) convert(st *State, v Val, from, to types.Type, pos token.Pos) V
 		if v.T != "" {
 			if n, ok := parseIntLit(x); ok {
 				res.IntOrig = new(big.Int).Mod(n, new(big.Int).Lsh(big.NewInt(1), uint(tw))).String()
+			} else if f.isSmallMod(x, tw) {
+				res.IntOrig = x // already reduced modulo something <= 2^tw
 			} else {
 				res.IntOrig = f.define("cvi", "Int", "(mod "+x+" "+pow2(tw)+")")
 			}
@@ -1293,7 +1295,8 @@ func (f *FuncVC) convert(st *State, v Val, from, to types.Type, pos token.Pos) V
 		arr := f.heapGet(st, key, elemArraySort(KBV, 8))
 		a := f.freshConst("strbytes", "(Array Int (_ BitVec 8))")
 		f.assume("(forall ((k Int)) (! (=> (and (<= 0 k) (< k (slen " + v.T + "))) (= (select " + a + " k) (sat " + v.T + " k))) :pattern ((select " + a + " k))))")
-		f.heapSet(st, key, elemArraySort(KBV, 8), "(store "+arr+" "+r+" "+a+")")
+		// r is fresh: the heap at r was never constrained, so initialisation is a fact about the same heap version
+		f.assume("(= (select " + arr + " " + r + ") " + a + ")")
 		res.T = f.define("sl", "Slice", "(mkslice "+r+" 0 (slen "+v.T+") (slen "+v.T+"))")
 		return res
 	case fk == KSlice && tk == KStr:
@@ -1596,7 +1599,7 @@ func (f *FuncVC) execMakeSlice(fr *frame, st *State, x *ssa.MakeSlice) {
 		key := "E." + sortKey(k, w)
 		arr := f.heapGet(st, key, elemArraySort(k, w))
 		z := f.zero(et)
-		f.heapSet(st, key, elemArraySort(k, w), "(store "+arr+" "+r+" ((as const (Array Int "+sortOf(k, w)+")) "+z.T+"))")
+		f.assume("(= (select " + arr + " " + r + ") ((as const (Array Int " + sortOf(k, w) + ")) " + z.T + "))")
 	} else if k == KStruct {
 		f.zeroStructElems(st, r, et)
 	}
@@ -1641,4 +1644,24 @@ func subT(a, b string) string {
 		return intLit(new(big.Int).Sub(x, y))
 	}
 	return "(- " + a + " " + b + ")"
+}
+
+// isSmallMod reports whether an Int term is syntactically (mod y m) with 0 < m <= 2^w.
+func (f *FuncVC) isSmallMod(x string, w int) bool {
+	t := x
+	if d, ok := f.defs[x]; ok {
+		t = d
+	}
+	if !strings.HasPrefix(t, "(mod ") || !strings.HasSuffix(t, ")") {
+		return false
+	}
+	i := strings.LastIndex(t, " ")
+	if i < 0 {
+		return false
+	}
+	m, ok := new(big.Int).SetString(t[i+1:len(t)-1], 10)
+	if !ok || m.Sign() <= 0 {
+		return false
+	}
+	return m.Cmp(new(big.Int).Lsh(big.NewInt(1), uint(w))) <= 0
 }
